@@ -74,6 +74,9 @@ type MockWatcherAdapter struct {
 	entryChan chan Entry
 	once      sync.Once
 	initChan  chan struct{}
+	// done is closed by Stop and releases the forwarding goroutine.
+	done     chan struct{}
+	stopOnce sync.Once
 }
 
 // NewMockWatcherAdapter creates a new MockWatcherAdapter.
@@ -81,6 +84,7 @@ func NewMockWatcherAdapter(watcher natsmock.Watcher) *MockWatcherAdapter {
 	return &MockWatcherAdapter{
 		watcher:  watcher,
 		initChan: make(chan struct{}),
+		done:     make(chan struct{}),
 	}
 }
 
@@ -97,11 +101,15 @@ func (a *MockWatcherAdapter) Updates() <-chan Entry {
 			defer close(a.entryChan)
 			close(a.initChan) // Signal that goroutine is ready
 			for mockEntry := range a.watcher.Updates() {
+				// nil entry means key was deleted
+				var entry Entry
 				if mockEntry != nil {
-					a.entryChan <- &MockEntryAdapter{Entry: mockEntry}
-				} else {
-					// nil entry means key was deleted
-					a.entryChan <- nil
+					entry = &MockEntryAdapter{Entry: mockEntry}
+				}
+				select {
+				case a.entryChan <- entry:
+				case <-a.done:
+					return
 				}
 			}
 		}()
@@ -113,6 +121,7 @@ func (a *MockWatcherAdapter) Updates() <-chan Entry {
 
 // Stop stops the watcher.
 func (a *MockWatcherAdapter) Stop() {
+	a.stopOnce.Do(func() { close(a.done) })
 	a.watcher.Stop()
 }
 
